@@ -74,7 +74,7 @@ QFRAME_FUNCS = [
     (r"SQL", ["C19", "C15"]),
     (r"String|View|Len|Column|Contains|functionType|ByteSize", ["C09", "C08", "C10"]),
 ]
-FALLBACK = ["C10", "C01", "C08", "C09"]
+FALLBACK = ["C10", "C01"]
 
 
 def checks_for(f, func):
@@ -175,14 +175,10 @@ def main():
                     rc, out = run(["go", "test", "-overlay", ov, "-vet=off", "-count=1", "-timeout", "90s", "./..."], "/repo", 400)
             if rc != 0:
                 emit("killed-by-suite"); continue
-            ovh = scratch + "/ov_h.json"
-            json.dump({"Replace": {
-                "/repo/verifseam/seam.go": HERE + "/harness/seam/seam.go",
-                "/repo/internal/sort/zz_verif.go": HERE + "/harness/seam/sort_zz_verif.go",
-                "/repo/internal/fastcsv/zz_verif.go": HERE + "/harness/seam/fastcsv_zz_verif.go",
-                src: mf}}, open(ovh, "w"))
+            extra = scratch + "/extra_overlay.txt"
+            open(extra, "w").write(' "%s": "%s",\n' % (src, mf))
             binp = scratch + "/qfmc"
-            rc, out = run(["go", "build", "-tags", "verif", "-overlay", ovh, "-o", binp, "."], HERE + "/harness", 600)
+            rc, out = run([HERE + "/build.sh"], HERE, 900, dict(ENV, VERIF_BIN_DIR=scratch, VERIF_EXTRA_OVERLAY=extra))
             if rc != 0:
                 emit("harness-nocompile", detail=out[-300:]); continue
             env = dict(ENV, VERIF_DIR=HERE, VERIF_NO_EVIDENCE="1", VERIF_WORKERS=str(workers), VERIF_FAILFAST="1")
